@@ -61,6 +61,11 @@ def record(sc):
                 break
             except Exception as ex:  # a rejection of the call, judged by the trace spec
                 calls.append(dict(idx=idx, uc=bool(uc), res="raise", val=[0, 0], nseen=0, exc=type(ex).__name__))
+    elif sc.get("kind") == "callers":
+        # the callers that derive a seed for THEIR item i: SMC round r (samplers.py) and BOLFI chain i (bolfi.py).  Each is
+        # run twice with the same master seed under circumstances that must not matter (other thresholds; best evidence
+        # partly outside the prior support, so that BOLFI.sample skips initial points): item i gets one and the same seed
+        calls = record_callers(sc)
     else:
         # through the loader, as the engine uses it: one ComputationContext shared by all batches
         import networkx as nx
@@ -91,6 +96,69 @@ def record(sc):
     return dict(seed=seed, high=limb(high), stream=[limb(x) for x in stream], calls=calls)
 
 
+def record_callers(sc):
+    import contextlib
+    import io
+    import elfi
+    import elfi.methods.mcmc as mcmc
+    seed = sc["seed"]
+    calls = []
+
+    def add(idx, v):
+        calls.append(dict(idx=int(idx), uc=False, res="val", val=limb(int(v)), nseen=0))
+    try:
+        with time_limit(300), contextlib.redirect_stdout(io.StringIO()):
+            if sc["who"] == "smc":
+                seen = []
+
+                class RecSMC(elfi.SMC):
+                    def _set_rejection_round(self, round):
+                        super()._set_rejection_round(round)
+                        if round > 0:
+                            seen.append((round, self._rejection.seed))
+                for thrs in ([2.0, 1.5, 1.0], [1.8, 1.2, 0.9, 0.7]):
+                    m = elfi.ElfiModel(name="c15smc")
+                    elfi.Prior("uniform", 0, 2, model=m, name="t")
+                    elfi.Simulator(_caller_sim, m["t"], model=m, name="y", observed=np.array([1.0]))
+                    elfi.Distance("euclidean", m["y"], model=m, name="d")
+                    RecSMC(m["d"], batch_size=4, seed=seed).sample(3, thresholds=thrs, bar=False)
+                for r, v in seen:
+                    add(r, v)
+            else:
+                captured = []
+
+                def fake(n_samples, params0, *a, seed=0, **k):
+                    captured.append(seed)
+                    return np.asarray(params0, dtype=float) + np.zeros((n_samples, len(np.atleast_1d(params0))))
+                keep = (mcmc.nuts, mcmc.metropolis)
+                mcmc.nuts = mcmc.metropolis = fake
+                try:
+                    inside = [0.95, 0.9, 0.8, 0.7, 0.5, 0.2, 0.35, 0.1, 0.6, 0.05, 0.45, 0.3]
+                    mixed = [1.05, 0.9, 1.2, 0.7, 0.5, 0.2, 0.35, 0.1, 0.6, -0.3, 0.45, 1.6]     # best points outside the support
+                    for ev in (inside, mixed):
+                        m = elfi.ElfiModel(name="c15bolfi")
+                        elfi.Prior("uniform", 0, 1, model=m, name="t")
+                        elfi.Simulator(_caller_sim, m["t"], model=m, name="y", observed=np.array([1.0]))
+                        elfi.Distance("euclidean", m["y"], model=m, name="d")
+                        t_ev = np.asarray(ev, dtype=float)
+                        b = elfi.BOLFI(m, "d", batch_size=1, initial_evidence={"t": t_ev, "d": np.abs(t_ev - 1.0)}, bounds={"t": (-1, 2)}, seed=seed)
+                        del captured[:]
+                        b.sample(10, n_chains=3, n_evidence=len(t_ev), algorithm=sc["alg"])
+                        for i, v in enumerate(captured):
+                            add(i, v)
+                finally:
+                    mcmc.nuts, mcmc.metropolis = keep
+    except Hang:
+        calls.append(dict(idx=0, uc=False, res="hang", val=[-1, 0], nseen=0))
+    except Exception as ex:
+        calls.append(dict(idx=0, uc=False, res="raise", val=[0, 0], nseen=0, exc="%s: %s" % (type(ex).__name__, str(ex)[:80])))
+    return calls
+
+
+def _caller_sim(t, batch_size=1, random_state=None):
+    return np.asarray(t, dtype=float).reshape(-1) + 0.0 * random_state.uniform(size=batch_size)
+
+
 def scenarios(ctx):
     rnd = random.Random(ctx.seed)
     out = []
@@ -118,6 +186,10 @@ def scenarios(ctx):
     n_load = 60 if ctx.quick else 600
     for _ in range(n_load):
         n = rnd.randint(2, 8)
+        if len([o for o in out if o.get("kind") == "callers"]) < (3 if ctx.quick else 12):
+            k = len([o for o in out if o.get("kind") == "callers"])
+            out.append(dict(kind="callers", who=["smc", "bolfi", "bolfi"][k % 3], alg=["nuts", "metropolis"][k % 2], high=2 ** 31,
+                            seed=rnd.randint(1, 2 ** 31 - 1), calls=[[4, False]]))
         out.append(dict(kind="loader", seed=(0 if rnd.random() < 0.1 else rnd.randint(0, 2 ** 31 - 1)), high=2 ** 31,
                         calls=[[rnd.randint(0, 25), True] for _k in range(n)]))
     return out, n_small
